@@ -146,4 +146,19 @@ example : listDIDs (stepOp cfg2 twoSubjects (.addSvc "a_1" "A") [.nuts, .web] .f
     listDIDs (stepOp cfg2 twoSubjects (.deactivate "a_1") [.web, .nuts] .none).1 "a-1" = listDIDs twoSubjects "a-1" ∧
     (listDIDs twoSubjects "a-1").length = 2 := by decide
 
+/-- composition: a request that is cancelled at any moment AND whose publication fails leaves every row as it was and
+    answers with the error (the clean-up transaction does not depend on the request being alive) -/
+theorem cancelled_and_failed_request_restores {cfg : Cfg} (hfix : Fixed cfg) (hms : cfg.methods.Nodup) {w : World} (h : Reach cfg w)
+    (cancelAt : Option Nat) (o : Op) (order : List Method) (f : Fault) (hf : ∀ n, f.inTx1 n = none) (hc : Clean w.dids o.subject)
+    {w1 : World} {chs : List Change} {e : String}
+    (ht : tx1 cfg w o = .ok (w1, chs)) (hph : (commitLoop f chs order 0 w1.pub).2 = .failed e) :
+    (stepOpCtx Now.webFails cancelAt cfg w o order f).1.dids = w.dids ∧
+    (stepOpCtx Now.webFails cancelAt cfg w o order f).2 = "err:" ++ e := by
+  rw [cancelled_request_changes_nothing]
+  exact failed_commit_restores hfix hms h o order f hf hc ht hph
+
+/-- non-vacuity: an `addSvc` on `a_1` cancelled after the first Commit call, with a failing did:nuts publication -/
+example : (stepOpCtx Now.webFails (some 1) cfg2 twoSubjects (.addSvc "a_1" "A") [.web, .nuts] .failNuts).1.dids = twoSubjects.dids ∧
+    (stepOpCtx Now.webFails (some 1) cfg2 twoSubjects (.addSvc "a_1" "A") [.web, .nuts] .failNuts).2 = "err:injected" := by decide
+
 end Nuts.C13.Props
